@@ -35,6 +35,19 @@ std::vector<Quad> quadsOf(const Path64& pattern, const Path64& path, bool isSum,
   return out;
 }
 
+// route (chosen per case): 0 the Path64 functions; 1 the PathD overloads with dp decimal places, fed with the operands
+// divided by 10^dp and with the result multiplied back, so that the integer model applies unchanged
+int g_dp = -1;
+Paths64 mink(const Path64& pattern, const Path64& path, bool isSum, bool closed) {
+  if (g_dp < 0) return isSum ? MinkowskiSum(pattern, path, closed) : MinkowskiDiff(pattern, path, closed);
+  double sc = std::pow(10.0, g_dp);
+  auto down = [&](const Path64& p) { PathD r; for (auto& q : p) r.emplace_back((double)q.x / sc, (double)q.y / sc); return r; };
+  PathsD rd = isSum ? MinkowskiSum(down(pattern), down(path), closed, g_dp) : MinkowskiDiff(down(pattern), down(path), closed, g_dp);
+  Paths64 r;
+  for (auto& p : rd) { Path64 q; for (auto& pt : p) q.emplace_back((int64_t)std::llround(pt.x * sc), (int64_t)std::llround(pt.y * sc)); r.push_back(q); }
+  return r;
+}
+
 std::vector<O::Seg> bandSegs(const Paths64& outlines) {
   std::vector<O::Seg> r;
   for (auto& sg : O::segsOf(outlines)) if (!(sg.a == sg.b)) r.push_back(sg);
@@ -61,11 +74,13 @@ Verdict judge(const Case& c) {
     std::vector<O::Seg> os = O::segsOf(pp, false, 0);
     return O::generalPosition({}, sep, nullptr, &os);
   };
+  g_dp = m <= (int64_t(1) << 38) ? (int)c.I("dp", -1) : -1;
+  if (g_dp >= 0) ST.count("route_PathD_decimal_places_" + std::to_string(g_dp));
   bool inDomain = gpOp(pattern, true) && gpOp(path, closed);
   if (!inDomain) ST.count("operands_not_in_general_position");
   bool thin = false;
   for (int isSum = 1; isSum >= 0; --isSum) {
-    Paths64 res = isSum ? MinkowskiSum(pattern, path, closed) : MinkowskiDiff(pattern, path, closed);
+    Paths64 res = mink(pattern, path, isSum != 0, closed);
     v.evals++;
     std::string cfg = std::string(isSum ? " [MinkowskiSum" : " [MinkowskiDiff") + (closed ? ",closed]" : ",open]");
     if (pattern.empty() || path.empty()) { if (!res.empty()) { v.fail("empty pattern or path gave a non-empty result" + cfg); return v; } continue; }
@@ -99,7 +114,7 @@ Verdict judge(const Case& c) {
           std::vector<Quad> q2 = quadsOf(pattern, p2, isSum != 0, closed, &qp2);
           if (q2.empty() || O::distToSegs(p, bandSegs(qp2)) <= tau) continue;
           int c2 = 0; for (auto& Q : q2) if (insideQuad(Q, p)) ++c2;
-          Paths64 r2 = isSum ? MinkowskiSum(pattern, p2, closed) : MinkowskiDiff(pattern, p2, closed);
+          Paths64 r2 = mink(pattern, p2, isSum != 0, closed);
           O::Wn w2 = O::winding(p, r2);
           ++judged;
           if (w2.w == (c2 > 0 ? 1 : 0) && !w2.on) ++cured;
@@ -143,6 +158,7 @@ Case gen() {
   c.p["pattern"] = {gpPath(1, 8, Mp, true)};
   c.p["path"] = {gpPath(1, 8, M, closed)};
   c.i["closed"] = closed;
+  c.i["dp"] = G::chance(70) ? -1 : G::range(0, 4);
   if (G::chance(4)) c.p[G::coin() ? "pattern" : "path"] = {Path64()};   // empty operand: empty result
   return c;
 }
